@@ -171,6 +171,9 @@ RETIRED = {
  "C09d": "neutralised by fix 044f74c (sequential_unroll removes only the io that were created for the pins): Circuit.remove "
          "is no longer asked for names that do not exist, so its early abort on a missing name has no effect there. Last "
          "confirmed and caught at /repo fb78a17.",
+ "C04f": "neutralised by fix e7d8402 (miter copies startpoints/endpoints into sets of its own): the seed's endpoints.pop() now "
+         "empties miter's private copy, not the caller's object, so a second call with the same object sees it intact. Last "
+         "confirmed and caught at /repo e1fd72a.",
 }
 
 
